@@ -13,6 +13,7 @@ import BV.C14.WarnLemmas
 import BV.C14.MtpMono
 import BV.C14.Char
 import BV.C14.Bits
+import BV.C14.Ident
 import BV.C14.Shipped
 import BV.Generated.C14
 namespace BV.C14
@@ -116,6 +117,47 @@ theorem step_follows_bip9_edges (net : Net) (d : Dep) (st : St) (b : Node) :
   · by_cases h1 : eligible d b = true <;> simp [h1, allowedEdge]
   · rfl
   · rfl
+
+/-- Started + enough votes in the window that just ended (and, for a legacy deployment, no timeout
+    yet) ⇒ LockedIn; for speedy-trial deployments the timeout does not matter here. -/
+theorem lockin_on_threshold (net : Net) (d : Dep) (b : Node)
+    (hv : threshold net d ≤ votes net d b) (ht : speedy d = true ∨ ended d b = false) :
+    step net d .started b = .lockedIn := by
+  have h1 : (!speedy d && ended d b) = false := by
+    rcases ht with h | h <;> simp [h]
+  simp [step, h1, hv]
+
+/-- a legacy deployment that has not locked in fails at the first boundary whose median time
+    reached the timeout — before the start test (Defined) and before the vote count (Started). -/
+theorem legacy_fails_on_timeout (net : Net) (d : Dep) (b : Node) (st : St)
+    (hl : speedy d = false) (he : ended d b = true) (hs : st = .defined ∨ st = .started) :
+    step net d st b = .failed := by
+  rcases hs with rfl | rfl <;> simp [step, hl, he]
+
+/-- speedy trial: Defined never fails; Started fails exactly when the timeout is reached in a window
+    that missed the threshold. -/
+theorem speedy_failure (net : Net) (d : Dep) (b : Node) (hsp : speedy d = true) :
+    step net d .defined b ≠ .failed ∧
+    (step net d .started b = .failed ↔ (ended d b = true ∧ votes net d b < threshold net d)) := by
+  constructor
+  · simp only [step, hsp, Bool.not_true, Bool.false_and, Bool.false_eq_true, if_false]
+    by_cases h : started d b = true <;> simp [h]
+  · simp only [step, hsp, Bool.not_true, Bool.false_and, Bool.false_eq_true, if_false, Bool.true_and]
+    by_cases hv : threshold net d ≤ votes net d b
+    · simp [hv]
+    · by_cases he : ended d b = true
+      · simp [hv, he]; omega
+      · simp [hv, he]
+
+/-- without a minimum activation height LockedIn lasts exactly one window. -/
+theorem lockedIn_lasts_one_window (net : Net) (d : Dep) (b : Node) (h0 : d.minHeight = 0) :
+    step net d .lockedIn b = .active := by
+  simp [step, eligible, h0]
+
+/-- The Spec never looks at a block's identity (hash, nonce, merkle root): relabelling the blocks of
+    a chain changes no state and no proposed version. -/
+theorem state_ignores_block_identity (net : Net) (d : Dep) (f : Hdr → Nat) (n : Node) :
+    state net d (Ident.relabel f n) = state net d n := Ident.state_relabel net d f n
 
 /-- Active is never left: on every descendant (any branch growing from `n`) the state is Active. -/
 theorem active_terminal (net : Net) (d : Dep) (p n : Node) (h : state net d n = .active) :
